@@ -29,7 +29,14 @@ type hidKey struct{}
 
 func init() {
 	register(&stream{name: "ops", gen: genOps, run: runOps})
+	// same cases, hostname-heavy generation (property C09)
+	register(&stream{name: "opshost", gen: func(r *Rng, tier string, n int, emit func(string)) {
+		hostHeavy = true
+		genOps(r, tier, n, emit)
+	}, run: runOps})
 }
+
+var hostHeavy = false
 
 // ---------------------------------------------------------------------------------------------- run
 
@@ -177,6 +184,15 @@ func runOps(fields []string) string {
 	if err != nil {
 		return "I=new-failed"
 	}
+	outI, outJ, oracles := runOpsOn(f, fields[1])
+	out := "I=" + strings.Join(outI, "|") + "\tJ=" + strings.Join(outJ, "|")
+	if len(oracles) > 0 {
+		out += "\tO=" + strings.Join(oracles, " ;; ")
+	}
+	return out
+}
+
+func runOpsOn(f *fox.Router, opsField string) (outI, outJ, oracles []string) {
 	cur := &served{}
 	mkHandler := func(hid int) fox.HandlerFunc {
 		return func(c fox.Context) {
@@ -186,10 +202,8 @@ func runOps(fields []string) string {
 			cur.hid = hid
 		}
 	}
-	var outI, outJ []string
-	var oracles []string
 	emit := func(i, j string) { outI = append(outI, i); outJ = append(outJ, j) }
-	for _, op := range strings.Split(fields[1], ";") {
+	for _, op := range strings.Split(opsField, ";") {
 		if op == "" {
 			continue
 		}
@@ -272,11 +286,7 @@ func runOps(fields []string) string {
 			emit("bad-op", "bad-op")
 		}
 	}
-	out := "I=" + strings.Join(outI, "|") + "\tJ=" + strings.Join(outJ, "|")
-	if len(oracles) > 0 {
-		out += "\tO=" + strings.Join(oracles, " ;; ")
-	}
-	return out
+	return
 }
 
 // ---------------------------------------------------------------------------------------------- gen
@@ -538,6 +548,9 @@ func genOps(r *Rng, tier string, n int, emit func(string)) {
 			methods[i] = Pick(cr, methodPool)
 		}
 		hostPct := Pick(cr, []int{0, 0, 30, 60})
+		if hostHeavy {
+			hostPct = Pick(cr, []int{60, 80, 100})
+		}
 		dump := tier == "thorough" && cr.Chance(30)
 		kind := cr.Intn(10)
 		addH := func(m, p string) {
